@@ -129,7 +129,10 @@ def model_check(chk, which):
 # script generation
 HOSTILE_NAMES = [b"../../../../escape.txt", b"../x", b"..", b".", b"@WORK@/abs-escape/f", b"a/b/c", b"..\\..\\w", b"C:\\dir\\f", b"a:b", b"con<>|?*\"", b".\x01.",
                  b"\x7f..", b" ", b"...", b"a\nb", b"\xc3\x28", b"\xff\xfe", b"name\x00tail", b"./..", b"x/", b"/", b"", b"-rf", b"~", b"a" * 300,
-                 b"..\x1f", b"\x1f\x1f", b"dir/..", b"....//....//x", b"\\", b"\\..\\", b"%2e%2e%2f", b"payload.bin"]
+                 b"..\x1f", b"\x1f\x1f", b"dir/..", b"....//....//x", b"\\", b"\\..\\", b"%2e%2e%2f", b"payload.bin",
+                 # over-long names (shortening must not re-introduce what the scrub removed): hostile bytes after the last dot, at the cut, before it
+                 b"A" * 300 + b".\\..\\x:y\x1b[2J", b"C" * 256 + b".\x01\x02", b"D" * 300 + b".<>|?*\"", b"E" * 253 + b"..", b"F" * 254 + b"/..", b"G" * 254 + b":\\x",
+                 b"H" * 250 + b".t\x7fxt" + b"I" * 10, b"." * 300, b"J" * 255 + b"\x00.."]
 
 
 def case_line(cid, chain, name=None, mode="dir", size=40, var=0, flags="-", usename=1):
